@@ -143,6 +143,20 @@ impl TreeNodeWithPreviousValue {
         // version of this node.
         if self.latest_node.last_epoch > target_epoch {
             if let Some(previous_node) = &self.previous_node {
+                if previous_node.last_epoch > target_epoch {
+                    // Only one previous state is kept. If it is newer than the target epoch as
+                    // well, the reader's view is more than one epoch behind storage and the state
+                    // of this node at the target epoch cannot be reconstructed. Handing out the
+                    // newer state instead would mix epochs, so this must be an error (and not
+                    // NotFound, which callers interpret as "there is no such node").
+                    return Err(StorageError::Other(format!(
+                        "TreeNode {:?} at epoch {} is no longer available (stored states are of epochs {} and {})",
+                        NodeKey(self.label),
+                        target_epoch,
+                        previous_node.last_epoch,
+                        self.latest_node.last_epoch
+                    )));
+                }
                 Ok(previous_node.clone())
             } else {
                 // no previous, return not found
